@@ -119,3 +119,47 @@ def replay_check_file(inp):
                         if rt not in (101, 201):
                             bad.append(dict(case, why="response packet type %d" % rt))
     return {"violates": bool(bad), "detail": bad[:3]}
+
+
+def listdir_iter_with_pipelined_write(inp):
+    """real client and server: a directory listing is iterated (one request at a time) and a pipelined write is issued
+    between two of its entries; the listing must complete, the file must close, nothing may be lost"""
+    import os
+    import threading
+    from .sftp_loop import Loop
+    loop = Loop()
+    res = {}
+
+    def run():
+        try:
+            os.mkdir(loop.path("d"))
+            for i in range(5):
+                with open(loop.path("d/f%d" % i), "wb") as f:
+                    f.write(b"x")
+            f = loop.sftp.open("/out.bin", "wb")
+            f.set_pipelined(True)
+            names = []
+            for k, a in enumerate(loop.sftp.listdir_iter("/d", read_aheads=1)):
+                names.append(a.filename)
+                if k == 0:
+                    f.write(b"A" * 100)
+            f.close()
+            res["names"] = sorted(names)
+            res["data"] = open(loop.path("out.bin"), "rb").read()
+        except Exception as e:
+            res["error"] = repr(e)
+    th = threading.Thread(target=run, daemon=True)
+    th.start()
+    th.join(30)
+    bad = []
+    if th.is_alive():
+        bad.append("the client blocked although the server answered every request (listing with a pipelined write in between)")
+    elif "error" in res:
+        bad.append("raised %s" % res["error"])
+    elif res["names"] != ["f%d" % i for i in range(5)] or res["data"] != b"A" * 100:
+        bad.append("listing %r, file %d bytes" % (res["names"], len(res["data"])))
+    try:
+        loop.close()
+    except Exception:
+        pass
+    return {"violates": bool(bad), "detail": bad}
